@@ -99,6 +99,8 @@ func main() {
 		"as the production callers do, the harness finalizes and reads back as soon as ANY call reports done=true, while stragglers are still blocked), Finalize, full read-back against the reference map, GetRootsForVersion/GetLatestVersion, " +
 		"checkpoint of the restored DB must reproduce the Metadata; plus (same parameter sets) a corruption series on one backend (each selected chunk x {bitflip, truncate, append, swapped, chunk of other checkpoint of same/other root, wrong metadata digest, metadata digest of a foreign proof}: " +
 		"must be rejected; a fresh-DB restore mixing rejected and honest submissions must end identical; after only rejected submissions abort+reopen must show no root and a subsequent honest restore must end identical). " +
+		"RECREATION: per tree the checkpoint is created with parameters P1, then three times the leftover of an unfinished CreateCheckpoint/DeleteCheckpoint run is simulated (meta removed; plus some chunk files removed / one truncated / one extended / further stale chunk files) " +
+		"and the checkpoint of the same root is created again in the same directory with smaller chunks, larger chunks and another thread count: the Metadata must equal that of a creation with the same parameters in a fresh directory, every served chunk must hash to its digest, and the restore oracle must pass on the served chunks. " +
 		"Minimal witnesses of the known findings are replayed first. A case is NON-TRIVIAL when the checkpoint has >= 2 chunks; distinct key = (shape class, chunk size class, thread class, target backend, order class)."
 	r.Assume("the reference map (Go map, sorted) and the harness itself are correct")
 	r.Assume("race detector reports only races on executed interleavings; 4 concurrent RestoreChunk callers are scheduled by the Go runtime, not enumerated")
@@ -468,6 +470,17 @@ func (rn *runner) runTree(ti int, onlyParam int) {
 				}
 				st.add("corruption_series_completed/"+backend, 1)
 			}()
+		}()
+	}
+
+	// Re-creation of the checkpoint after an interrupted creation / deletion.
+	if onlyParam < 0 || onlyParam == 1000 {
+		func() {
+			fw := w
+			fw.Param = 1000
+			defer guard("recreate-after-interruption", &fw)
+			defer timed("recreate-family")()
+			rn.recreateFamily(ctx, ti, src, root, fw, shape, want, m, scratch, st, fail)
 		}()
 	}
 }
